@@ -346,6 +346,18 @@ C40_UsedCopyKept ==
   Done => /\ \A m \in pre.cp : (m \in touched \/ KeptPointsAt(m, FALSE) \/ (m = "m0" /\ taStored)) => m \in copies
           /\ \A m \in pre.ar : (m \in touchedN \/ KeptPointsAt(m, TRUE)) => m \in archives
 
+(* Observation, not part of C40 as read above.  With RRDP disabled (or after *)
+(* a fall-back) a point whose CA certificate carries rpkiNotify is fetched   *)
+(* through its rsync module, yet cleanup_points registers only the RRDP      *)
+(* repository for it (store.rs:568-573).  If such a point is kept but was    *)
+(* not visited in this run, its rsync module is deleted although the module  *)
+(* of a point without rpkiNotify is kept in the same situation.  The pinned  *)
+(* code violates this stricter reading (MC_Cleanup_strict.cfg is rejected;   *)
+(* the replayer counts the cases in notes.observation_rrdp_filed_...).       *)
+Strict_FetchedCopyKept ==
+  Done => \A m \in pre.cp :
+            (\E k \in Keys : stored[k].st = "ok" /\ k[2].mod = m /\ (~k[2].notify \/ ~Rrdp)) => m \in copies
+
 (* dirty: nothing is removed *)
 C40_DirtyRemovesNothing ==
   (Done /\ cfg.dirty) => stored = pre.st /\ copies = pre.cp /\ archives = pre.ar /\ ~cleaned
